@@ -321,6 +321,9 @@ def ed_space(tier):
                 yield ("AC", 6, s, 7)
             for s in strings("ACG", 3):
                 yield ("ACG", 3, s, 4)
+        # an alphabet with the NUL character (C string functions stop there)
+        for s in strings("A\x00", 4):
+            yield ("A\x00", 4, s, 5)
 
     return gen
 
